@@ -5,7 +5,7 @@
      leaf      what the chain finally reads: literal / const / binder / mutable variable / mutable array element
      links     "cinit"  const int cK = <prev>;            (initialiser dependence)
                "fun"    int fK() { return <prev>; }       (function body reads; function_t::depends)
-               "flocal" int fK() { int t = <prev>; return t; }
+               "flocal" int fK() { int t = <prev>; return t; }      (also array / struct locals: flocalarr, flocalrec)
                "fcall"  int fK() { return idf(<prev>); }  (passes through a by-value call)
    and then used in a compile-time CONTEXT.
    State per link: sem  = TRUE iff its value depends only on literals, constants, binders (least fixpoint);
@@ -23,7 +23,7 @@ EXTENDS Integers, Sequences, FiniteSets, TLC, Json
 CONSTANTS MaxLinks
 
 Leaves == {"lit", "const", "binder", "mut", "mutelem", "constelem"}
-Links == {"cinit", "fun", "flocal", "fcall", "tinit"}     \* tinit: typedef-free; const initialised inside the template declaration
+Links == {"cinit", "fun", "flocal", "flocalarr", "flocalrec", "fcall", "tinit"}     \* tinit: typedef-free; const initialised inside the template declaration
 Contexts == {"arrsize_g", "arrsize_t", "arrsize_f", "range_g", "range_t", "scalar_g", "init_g", "init_t", "init_meta",
              "valarg", "crefarg", "select_dom", "iter_dom", "quant_dom"}
 
@@ -52,7 +52,7 @@ AddLink ==
                   \* const symbol itself is always in compileTimeComputableValues
                   /\ err' = (err \/ ~CTC(Cur))
                   /\ dep' = Append(dep, {"c"})
-             [] k \in {"fun", "flocal", "fcall"} ->
+             [] k \in {"fun", "flocal", "flocalarr", "flocalrec", "fcall"} ->
                   \* function_t::depends = reads of the body minus locals/parameters; a use of the function reads depends
                   /\ err' = err
                   /\ dep' = Append(dep, Cur)
